@@ -501,23 +501,30 @@ def cancelLookup (mouts : List (Rid × MetaRes)) (l : Lookup) : Lookup × List T
     | some .ok => ({ l with pc := .done (.fail (.acancelled (some false))) }, [], [.cancelReq rid])
     | some (.err k) => ({ l with pc := .done (.fail k) }, [], [.cancelReq rid])
 
+/-- cancel of `_batch_send_d` while the DeferredList is pending -/
+def cancelLookups (cfg : Cfg) (st : St) (ls : List Lookup) (mouts : List (Rid × MetaRes)) : St × List Ob :=
+  let rs := ls.map (cancelLookup mouts)
+  afterLookups cfg { st with zombies := st.zombies ++ rs.flatMap (·.2.1) } (rs.map (·.1)) (rs.flatMap (·.2.2))
+
+/-- … while the client's produce Deferred is pending -/
+def cancelSending (cfg : Cfg) (st : St) (wipe : Bool) (rid : Rid) (b : Batch) : Option ProdRes → St × List Ob
+  | none => (st, [.cancelReq rid])
+  | some r =>
+    let (st2, obs) := finish cfg (handleSendResponse cfg (if wipe then { st with tmeta := [] } else st) b r)
+    (st2, .cancelReq rid :: obs)
+
+/-- … while the retry Deferred is pending (`_cancel_retry`) -/
+def cancelRetryWait (cfg : Cfg) (st : St) (tid : Tid) (b : Batch) : St × List Ob :=
+  let (st1, obs) := finish cfg (deliverAll st b (.err .tcancelled))
+  (st1, .cancelTimer tid :: obs)
+
 def cancelBatch (cfg : Cfg) (st : St) (wipe : Bool) (pout : Option ProdRes)
     (mouts : List (Rid × MetaRes)) : St × List Ob :=
   match st.phase with
   | .idle => (st, [])
-  | .lookups ls =>
-    let rs := ls.map (cancelLookup mouts)
-    afterLookups cfg { st with zombies := st.zombies ++ rs.flatMap (·.2.1) } (rs.map (·.1)) (rs.flatMap (·.2.2))
-  | .sending rid b =>
-    match pout with
-    | none => (st, [.cancelReq rid])
-    | some r =>
-      let st1 := if wipe then { st with tmeta := [] } else st
-      let (st2, obs) := finish cfg (handleSendResponse cfg st1 b r)
-      (st2, .cancelReq rid :: obs)
-  | .retryWait tid b _ =>
-    let (st1, obs) := finish cfg (deliverAll st b (.err .tcancelled))
-    (st1, .cancelTimer tid :: obs)
+  | .lookups ls => cancelLookups cfg st ls mouts
+  | .sending rid b => cancelSending cfg st wipe rid b pout
+  | .retryWait tid b _ => cancelRetryWait cfg st tid b
 
 def stopValid (st : St) (pout : Option ProdRes) : Bool :=
   match st.phase, pout with
@@ -543,6 +550,42 @@ def metaContinue (cfg : Cfg) (st : St) (r : Req) : MetaRes → St × LPc × List
                  interval := st.interval * producerRetryFactor },
         .waitBackoff st.nextTid, [.setTimer st.nextTid st.interval])
 
+/-- a timer that is not the one the batch waits on: a cancelled back-off timer does nothing -/
+def zombieTimer (st : St) (tid : Tid) : St × List Ob :=
+  if tid ∈ st.zombies then ({ st with zombies := st.zombies.erase tid }, []) else (st, [.badOp])
+
+/-- a timer fires while look-ups are pending: the back-off of one of them, or a zombie -/
+def timerLookups (cfg : Cfg) (st : St) (ls : List Lookup) (tid : Tid) : St × List Ob :=
+  match findPc ls (.waitBackoff tid) with
+  | some l =>
+    let (s, pc, obs) := lookupHead cfg st l.req
+    afterLookups cfg s (setPc ls (.waitBackoff tid) pc) obs
+  | none => zombieTimer st tid
+
+/-- a metadata load completes while look-ups are pending -/
+def metaDoneLookups (cfg : Cfg) (st : St) (ls : List Lookup) (rid : Rid) (res : MetaRes) : St × List Ob :=
+  match findPc ls (.waitMeta rid) with
+  | some l =>
+    let (s, pc, obs) := metaContinue cfg st l.req res
+    afterLookups cfg s (setPc ls (.waitMeta rid) pc) obs
+  | none => (st, [.badOp])
+
+/-- the stop event past its validity check -/
+def doStop (cfg : Cfg) (st : St) (wipe : Bool) (pout : Option ProdRes) (mouts : List (Rid × MetaRes)) : St × List Ob :=
+  let (st2, obs2) := cancelBatch cfg { st with stopping := true } wipe pout mouts
+  let (st3, obs3) : St × List Ob :=
+    if cfg.everyT.isSome && st2.looper then ({ st2 with looper := false }, [.stopLooper]) else (st2, [])
+  let (st4, obs4) := cancelAll st3 st3.outstanding
+  (st4, obs2 ++ obs3 ++ obs4)
+
+/-- `send_messages` past its validation -/
+def doSend (cfg : Cfg) (st : St) (sid : Sid) (topic : Topic) (key : Option (List UInt8)) (msgs : List (Option Nat)) : St × List Ob :=
+  checkSendBatch cfg { st with nextSid := st.nextSid + 1,
+                               queue := st.queue ++ [{ sid, topic, key, msgs }],
+                               msgCount := st.msgCount + msgs.length,
+                               byteCount := st.byteCount + msgBytes msgs,
+                               outstanding := st.outstanding ++ [sid] }
+
 /-! ## the step function -/
 
 def step (cfg : Cfg) (st : St) : Ev → St × List Ob
@@ -550,34 +593,16 @@ def step (cfg : Cfg) (st : St) : Ev → St × List Ob
     if sid ≠ st.nextSid then (st, [.badOp])
     else if msgs.isEmpty then
       ({ st with nextSid := st.nextSid + 1 }, [.fire sid (.err (.other 4))])     -- ValueError
-    else
-      let st1 := { st with nextSid := st.nextSid + 1,
-                           queue := st.queue ++ [{ sid, topic, key, msgs }],
-                           msgCount := st.msgCount + msgs.length,
-                           byteCount := st.byteCount + msgBytes msgs,
-                           outstanding := st.outstanding ++ [sid] }
-      checkSendBatch cfg st1
+    else doSend cfg st sid topic key msgs
   | .cancel sid =>
     if sid < st.nextSid then cancelSend st sid else (st, [.badOp])
   | .tick =>
     if st.looper then sendBatch cfg st else (st, [.badOp])
   | .timer tid =>
     match st.phase with
-    | .lookups ls =>
-      match findPc ls (.waitBackoff tid) with
-      | some l =>
-        let (s, pc, obs) := lookupHead cfg st l.req
-        afterLookups cfg s (setPc ls (.waitBackoff tid) pc) obs
-      | none =>
-        if tid ∈ st.zombies then ({ st with zombies := st.zombies.erase tid }, [])
-        else (st, [.badOp])
-    | .retryWait t b tps =>
-      if t = tid then doRetry st b tps
-      else if tid ∈ st.zombies then ({ st with zombies := st.zombies.erase tid }, [])
-      else (st, [.badOp])
-    | _ =>
-      if tid ∈ st.zombies then ({ st with zombies := st.zombies.erase tid }, [])
-      else (st, [.badOp])
+    | .lookups ls => timerLookups cfg st ls tid
+    | .retryWait t b tps => if t = tid then doRetry st b tps else zombieTimer st tid
+    | _ => zombieTimer st tid
   | .advance _ => (st, [])
   | .metaSet topic err parts =>
     ({ st with tmeta := st.tmeta.filter (·.topic ≠ topic) ++ [{ topic, err, parts }] }, [])
@@ -585,12 +610,7 @@ def step (cfg : Cfg) (st : St) : Ev → St × List Ob
   | .metaWipe => ({ st with tmeta := [] }, [])
   | .metaDone rid res =>
     match st.phase with
-    | .lookups ls =>
-      match findPc ls (.waitMeta rid) with
-      | some l =>
-        let (s, pc, obs) := metaContinue cfg st l.req res
-        afterLookups cfg s (setPc ls (.waitMeta rid) pc) obs
-      | none => (st, [.badOp])
+    | .lookups ls => metaDoneLookups cfg st ls rid res
     | _ => (st, [.badOp])
   | .produceDone rid res =>
     match st.phase with
@@ -599,14 +619,7 @@ def step (cfg : Cfg) (st : St) : Ev → St × List Ob
       else (st, [.badOp])
     | _ => (st, [.badOp])
   | .stop wipe pout mouts =>
-    if !stopValid st pout then (st, [.badOp])
-    else
-      let st1 := { st with stopping := true }
-      let (st2, obs2) := cancelBatch cfg st1 wipe pout mouts
-      let (st3, obs3) : St × List Ob :=
-        if cfg.everyT.isSome && st2.looper then ({ st2 with looper := false }, [.stopLooper]) else (st2, [])
-      let (st4, obs4) := cancelAll st3 st3.outstanding
-      (st4, obs2 ++ obs3 ++ obs4)
+    if !stopValid st pout then (st, [.badOp]) else doStop cfg st wipe pout mouts
 
 def run (cfg : Cfg) : St → List Ev → St × List Ob
   | st, [] => (st, [])
